@@ -167,7 +167,18 @@ func c11Distinct() int {
 func c11Judge(run *ev.Run, body []byte, origin string) {
 	c11Mark(body)
 	ref := refParse(body)
-	old, proof, cp, err := bastion.VerifParseBody(bytes.NewReader(body))
+	var old uint64
+	var proof [][]byte
+	var cp []byte
+	var err error
+	if pan := func() (p any) {
+		defer func() { p = recover() }()
+		old, proof, cp, err = bastion.VerifParseBody(bytes.NewReader(body))
+		return nil
+	}(); pan != nil {
+		run.Report("parser-panicked class="+ref.Class, fmt.Sprintf("parseBody panicked on %q: %v (a panic is not a refusal)", short(string(body)), pan), map[string]any{"kind": "parse-body", "body_b64": base64.StdEncoding.EncodeToString(body)})
+		return
+	}
 	run.Hist("reference_classes", ref.Class)
 	rep := map[string]any{"kind": "parse-body", "body_b64": base64.StdEncoding.EncodeToString(body), "origin": origin}
 	short := string(body)
